@@ -83,6 +83,105 @@ func c12bRun(c *core.Ctx) {
 	}
 }
 
+// ---- part 3: NoArgVars x operands shaped like var=value ----
+//
+// With NoArgVars an operand "k=v" is a FILE NAME: under NoFileReads it may not
+// be opened (by the main loop or by plain getline), without NoFileReads it is
+// read like any file; without NoArgVars it is an assignment and nothing is
+// opened. Every flag combination x both reading forms x operand position.
+
+type c12cCase struct {
+	Part      string   `json:"part"`
+	Prog      int      `json:"prog"`
+	Args      []string `json:"args"`
+	Flags     int      `json:"flags"`
+	NoArgVars bool     `json:"no_arg_vars"`
+	Wrap      bool     `json:"custom_openfile"`
+}
+
+var c12cProgs = []string{
+	`{ print "R:" FILENAME ":" $0 } END { print "E", k }`,
+	`BEGIN { while ((getline line) > 0) print "G:" FILENAME ":" line; print "E", k }`,
+	`BEGIN { if ((getline) > 0) print "H:" $0 } { print "R:" $0 } END { print "E", k }`,
+}
+
+func c12cRun(c *core.Ctx) {
+	wd, _ := os.Getwd()
+	dir := filepath.Join(wd, fmt.Sprintf("c12c-%d", c.Shard))
+	os.MkdirAll(dir, 0o755)
+	defer os.RemoveAll(dir)
+	old, _ := os.Getwd()
+	os.Chdir(dir)
+	defer os.Chdir(old)
+	argLists := [][]string{{"k=v"}, {"plain", "k=v"}, {"k=v", "plain"}, {"-", "k=v"}, {"k=secret=2"}}
+	for pi := range c12cProgs {
+		for _, args := range argLists {
+			for flags := 0; flags < 8; flags++ {
+				for _, nav := range []bool{false, true} {
+					for _, wrap := range []bool{false, true} {
+						if !c.Mine() {
+							continue
+						}
+						c12cOne(c, dir, c12cCase{Part: "argvars", Prog: pi, Args: args, Flags: flags, NoArgVars: nav, Wrap: wrap})
+					}
+				}
+			}
+		}
+	}
+}
+
+func c12cOne(c *core.Ctx, dir string, cs c12cCase) {
+	os.WriteFile(filepath.Join(dir, "k=v"), []byte("SECRET1\n"), 0o644)
+	os.WriteFile(filepath.Join(dir, "k=secret=2"), []byte("SECRET2\n"), 0o644)
+	os.WriteFile(filepath.Join(dir, "plain"), []byte("plain1\n"), 0o644)
+	prog := awk.MustParse(c12cProgs[cs.Prog], nil)
+	var opened []string
+	vexp.SetOsFn(func(ev vexp.OsEvent) { opened = append(opened, ev.Name) })
+	defer vexp.SetOsFn(nil)
+	cfg := &interp.Config{Stdin: strings.NewReader("stdin1\n"), Args: cs.Args, NoArgVars: cs.NoArgVars,
+		NoExec: cs.Flags&1 != 0, NoFileWrites: cs.Flags&2 != 0, NoFileReads: cs.Flags&4 != 0}
+	if cs.Wrap {
+		cfg.OpenFile = func(name string, flag int, perm os.FileMode) (*os.File, error) {
+			opened = append(opened, name)
+			return os.OpenFile(name, flag, perm)
+		}
+	}
+	res := awk.Exec(prog, cfg)
+	c.Eval(1)
+	c.Add("transitions", 1)
+	c.Outcome(fmt.Sprintf("argvars %d %v %d %v err=%v out=%q", cs.Prog, cs.Args, cs.Flags, cs.NoArgVars, res.Err != nil, res.Out))
+	sig := func(s string) string { return fmt.Sprintf("argvars:%s:prog=%d:noargvars=%v", s, cs.Prog, cs.NoArgVars) }
+	if res.Panic != "" {
+		c.Fail(sig("panic"), cs, firstLine(res.Panic))
+		return
+	}
+	secretOpened := false
+	for _, n := range opened {
+		if strings.HasPrefix(filepath.Base(n), "k=") {
+			secretOpened = true
+		}
+	}
+	leaked := strings.Contains(res.Out, "SECRET")
+	switch {
+	case !cs.NoArgVars:
+		// assignments: never a file
+		if secretOpened || leaked {
+			c.Fail(sig("assignment-operand-opened-as-file"), cs, fmt.Sprintf("opened=%q out=%q", opened, res.Out))
+		}
+	case cfg.NoFileReads:
+		if secretOpened || leaked {
+			c.Fail(sig("file-operand-read-under-NoFileReads"), cs, fmt.Sprintf("opened=%q out=%q err=%v", opened, res.Out, res.Err))
+		} else if res.Err == nil && cs.Prog == 0 {
+			c.Fail(sig("denied-read-did-not-end-run-with-error"), cs, "out="+res.Out)
+		}
+	default:
+		// NoArgVars without NoFileReads: the operand is read like any file
+		if !leaked || res.Err != nil {
+			c.Fail(sig("file-operand-not-read"), cs, fmt.Sprintf("out=%q err=%v", res.Out, res.Err))
+		}
+	}
+}
+
 func c12bSnapshot(dir string) string {
 	var parts []string
 	filepath.Walk(dir, func(p string, info os.FileInfo, err error) error {
@@ -165,6 +264,18 @@ func c12bOne(c *core.Ctx, dir string, cs c12bCase) {
 }
 
 func c12bReplay(c *core.Ctx, raw json.RawMessage) bool {
+	var cc c12cCase
+	if json.Unmarshal(raw, &cc) == nil && cc.Part == "argvars" {
+		wd, _ := os.Getwd()
+		dir := filepath.Join(wd, "c12c-replay")
+		os.MkdirAll(dir, 0o755)
+		defer os.RemoveAll(dir)
+		old, _ := os.Getwd()
+		os.Chdir(dir)
+		defer os.Chdir(old)
+		c12cOne(c, dir, cc)
+		return true
+	}
 	var cs c12bCase
 	if json.Unmarshal(raw, &cs) != nil || cs.Part != "spelling" {
 		return false
